@@ -33,6 +33,10 @@ def mk(kind, dt, ident):
     if kind == 'n':
         return mido.Message('note_on', channel=ident // 10, note=ident % 10, time=dt)
     if kind == 'x':
+        if ident % 2:
+            # a time signature is notation: it never changes what a tick lasts
+            return mido.MetaMessage('time_signature', numerator=[6, 2, 12, 3][ident % 4], denominator=[8, 2, 16, 4][(ident // 2) % 4],
+                                    clocks_per_click=ident % 256, notated_32nd_notes_per_beat=8, time=dt)
         return mido.MetaMessage('marker', text=str(ident), time=dt)
     if kind == 'e':
         return mido.MetaMessage('end_of_track', time=dt)
@@ -48,6 +52,8 @@ def ident_of(m):
         return m.channel * 10 + m.note
     if m.type == 'marker':
         return int(m.text)
+    if m.type == 'time_signature':
+        return m.clocks_per_click
     if m.type == 'unknown_meta':
         return m.data[0] + 128 * m.data[1]
     return None      # set_tempo: identified by position only
@@ -142,7 +148,7 @@ def check_iter(tracks, it, tpb):
     # the tempo map is whatever the file holds NOW: change every set_tempo in place (the
     # file has been iterated and measured above) and measure again
     ticks = max([sum(dt for dt, k in tr) for tr in tracks] or [0])
-    for tempo in (250000, 500000, 3):
+    for tempo in (250000, 500000, 3, 0):      # (0 is a documented tempo value)
         n = 0
         for tr in mid.tracks:
             for m in tr:
